@@ -2,7 +2,7 @@
    Only statements, each closed by [exact]; model in Model/Parser.v, proofs in Proof/Parser*.v,
    Proof/Body*.v, Proof/Chunked*.v. *)
 From Coq Require Import List NArith ZArith Bool.
-From GV Require Import Base.Bytes Base.Scan Base.PyStr Model.Parser Proof.ParserHead Proof.ChunkedReader.
+From GV Require Import Base.Bytes Base.Scan Base.PyStr Gen.GenParser Model.Parser Proof.ParserHead Proof.ChunkedReader Proof.HeadSound Proof.RunFuel.
 Import ListNotations.
 
 (* [run c x progs p] is the whole observable behaviour of a connection whose successive reads are the
@@ -30,6 +30,19 @@ Theorem C06_head_independent : forall c x n p, NE p ->
     canon_req (parse_request c x n p) = canon_req (parse_request c x n (whole (u_abs p))).
 Proof. exact parse_request_indep. Qed.
 Print Assumptions C06_head_independent.
+
+(* The loops of the model run on explicit fuel; the fuel never decides anything.  No request head answers
+   "out of fuel", and giving run_conn more fuel than the S (length of the stream) units [run] gives it never
+   changes the observation (every request consumes at least its request line) - so the equality above is
+   never an equality of two truncated runs. *)
+Theorem C06_head_never_out_of_fuel : forall c x n p, parse_request c x n p <> inr EOutOfFuel.
+Proof. exact parse_request_never_out_of_fuel. Qed.
+Print Assumptions C06_head_never_out_of_fuel.
+Theorem C06_fuel_never_decides : forall c x, safe_cfg c -> forall f1 f2 n progs p,
+    NE p -> (length (u_abs p) < f1)%nat -> (length (u_abs p) < f2)%nat ->
+    run_conn c x f1 n progs p = run_conn c x f2 n progs p.
+Proof. exact run_conn_fuel_irrelevant. Qed.
+Print Assumptions C06_fuel_never_decides.
 
 (* ---- non-vacuity: a pipelined chunked request cut inside the chunk-size line, the chunk
         terminator and the trailer, against the unsegmented stream ---- *)
